@@ -190,6 +190,72 @@ def random_template(rng, nmaps):
     return maps
 
 
+def closed_template(rng):
+    """four keys held together: a random layout of 2-4 interacting mappings whose event keys are restricted to its own
+    trigger keys (plus, sometimes, one output key pressed physically); rollover of four keys is where two and three
+    mappings are in effect at once (DESIGN.md 11.5d: seeds that needed four keys)"""
+    mods_pool = rng.sample(['LEFTSHIFT', 'RIGHTSHIFT', 'LEFTCTRL', 'RIGHTCTRL', 'LEFTALT', 'RIGHTALT', 'LEFTMETA', 'RIGHTMETA'], 2)
+    syms = ['$a%d' % i for i in range(7)]
+    layer = rng.choice(mods_pool + syms[3:4] * 2)            # a shared first trigger key: modifier or layer key
+    nmaps = rng.choice([2, 3, 3, 4])
+    maps = []
+    nsp = 0
+    for _ in range(nmaps):
+        for _try in range(50):
+            shape = rng.random()
+            if shape < 0.15:
+                frm = [layer]                               # bare layer / modifier mapping
+            elif shape < 0.75:
+                other = rng.choice(mods_pool) if rng.random() < 0.3 else layer
+                frm = [other, rng.choice(syms[:3])]
+            elif shape < 0.9:
+                frm = [rng.choice(syms[:3])]
+            else:
+                a, b = rng.sample(mods_pool + [layer], 2) if layer not in mods_pool else mods_pool
+                frm = [a, b, rng.choice(syms[:3])]
+            if len(set(frm)) != len(frm):
+                continue
+            nt = rng.choice([0, 1, 1, 2, 2])
+            to = []
+            while len(to) < nt:
+                if len(to) < nt - 1:
+                    c = rng.choice(mods_pool * 2 + syms[:3] + [layer])
+                else:
+                    c = rng.choice(syms[4:7] * 2 + syms[:3] + mods_pool[:1])
+                if c not in to:
+                    to.append(c)
+            r = rng.random()
+            if r < 0.55:
+                rep = NORMAL
+            elif r < 0.8:
+                rep = DISABLED
+            else:
+                keys = rng.sample(syms[4:7] + mods_pool, rng.choice([0, 1, 2]))
+                rep = ('Special', K(*keys), Opaque('delay%d' % nsp), Opaque('interval%d' % nsp))
+                nsp += 1
+            absb = []
+            if len(frm) > 1 and rng.random() < 0.35:
+                absb = [c for c in frm[:-1] if rng.random() < 0.8]
+            cand = dict(frm=K(*frm), to=K(*to), rep=rep, absb=K(*absb))
+            if not any(m['frm'] == cand['frm'] for m in maps):
+                maps.append(cand)
+                break
+    alpha = []
+    for m in maps:
+        for k in m['frm']:
+            if k not in alpha:
+                alpha.append(k)
+    outs = [k for m in maps for k in m['to'] if k not in alpha]
+    if outs and rng.random() < 0.5 and len(alpha) < 6:
+        alpha.append(rng.choice(outs))
+    for k in outs + syms:                                   # at least four event keys, otherwise N=4 is never reached
+        if len(alpha) >= 4:
+            break
+        if k not in alpha:
+            alpha.append(k)
+    return maps, alpha[:6]
+
+
 # --------------------------------------------------------------------------- sub-alphabets for big layouts
 def distinct_keys(maps):
     out = []
@@ -294,6 +360,12 @@ def build(repo, native, tier, seed, log=None):
         nm = rng.choice([1, 2, 2]) if quick else rng.choice([1, 2, 2, 3, 3])
         maps = random_template(rng, nm)
         add_spec('template/G-%d-%d' % (seed, i), maps, N_small if nm <= 2 else 3, D, note='random symbolic template G(M,F,T)')
+    nclosed = int(os.environ.get('VERIF_NCLOSED', '0')) or (40 if quick else 200)
+    crng = random.Random(seed * 7919 + 13)
+    for i in range(nclosed):
+        maps, alpha = closed_template(crng)
+        add_spec('template/C4-%d-%d' % (seed, i), maps, 4, max(D, 20), alphabet=alpha,
+                 note='random symbolic template, four keys held, event keys restricted to the listed keys', no_foreign=True)
     big = []
     for name, maps in builtin_layouts(native).items():
         big.append(('builtin/' + name, maps))
